@@ -1087,6 +1087,9 @@ def format_quantiles(a_list: list[float]) -> list[str]:
     while len(set(formatted_list)) < len(set(a_list)) and precision < 17:
         precision += 1
         formatted_list = [f"{number:.{precision}e}" for number in a_list]
+    # integers beyond 2**53 can not be told apart by a float format: using there exact digits
+    if len(set(formatted_list)) < len(set(a_list)):
+        formatted_list = [str(number) for number in a_list]
 
     # stripping whitespaces
     formatted_list = [string.strip() for string in formatted_list]
